@@ -470,6 +470,43 @@ pub fn spec(id: &str) -> Option<CheckSpec> {
                 }),
             })
         }
+        "C17" => {
+            g.verdicts = true;
+            g.blob = BlobMode::Either;
+            g.w.snap_open = 6;
+            g.w.snap_release = 3;
+            g.w.ingest = 2;
+            g.w.reopen = 2;
+            g.w.major = 6;
+            g.w.leveled = 10;
+            g.w.pulldown = 6;
+            g.weak_keys_max = 2;
+            g.w.remove_weak = 1;
+            g.max_keys = 24;
+            a.point = true;
+            a.point_deep = true;
+            a.scan_latest = true;
+            a.snapshots = true;
+            a.blob_ptr = true;
+            a.gc_stats = true;
+            Some(CheckSpec {
+                id: "C17",
+                level: "exploration",
+                gen: g,
+                audits: a,
+                twin: Twin::None,
+                cases_quick: 1200,
+                cases_thorough: 30_000,
+                ops_quick: 80,
+                ops_thorough: 250,
+                nontrivial: |s| s.get("filter.newest_with_older_versions") > 0 && s.get("filter.replace") > 0 && s.get("filter.remove") + s.get("filter.weak_or_destroy_once") + s.get("filter.weak_or_destroy_multi") > 0,
+                rule: "histories on standard and blob trees with a compaction filter factory whose verdict is a generated total function of (key, value) (table lookup on a hash: Keep / Remove / RemoveWeak / ReplaceValue(r) with r on either side of the separation threshold / Destroy) and which logs every call and always calls item.value() (so being shown a tombstone trips the crate's unreachable!). Values are unique, so each logged call identifies the model write it was shown. After the compaction publishes version V: Keep leaves the key unchanged, ReplaceValue reads r at the same seqno, Remove reads absent, RemoveWeak/Destroy read absent for keys written once and leave the answer open otherwise; keys not in the log read as before; snapshots opened earlier keep their stored answers; on blob trees the pointer audit (C08) and garbage accounting (C09) also run after every op. Non-trivial = the filter was shown a newest version of a key that has older versions, and both a replacement and a removing verdict took effect. Distinct = hash of the case.",
+                assumptions: ASSUME_COMMON.to_vec(),
+                finale: None,
+                per_op: None,
+                prepare: None,
+            })
+        }
         _ => None,
     }
 }
